@@ -14,6 +14,8 @@ MCSetups == {
   \* an explicit default of 0: /DW 0 and /DW2 [880 0] (the descriptor's /MissingWidth is not a default of CID fonts)
   [id |-> "H-dw0", mode |-> "H", tc |-> 0, tw |-> 0, sc |-> 1, tab |-> (1 :> <<250>> @@ 2 :> <<>> @@ 3 :> <<>>), dw |-> <<0>>],
   [id |-> "V-dw0", mode |-> "V", tc |-> 0, tw |-> 0, sc |-> 1, tab |-> (1 :> <<-500, 300, 700>> @@ 2 :> <<>> @@ 3 :> <<>>), dw |-> <<0, -1, 880>>],
+  \* zero components: position vector x = 0 (CID 1), vertical displacement 0 and position vector y = 0 (CID 2)
+  [id |-> "V-zero", mode |-> "V", tc |-> 0, tw |-> 0, sc |-> 1, tab |-> (1 :> <<-500, 0, 700>> @@ 2 :> <<0, 300, 0>> @@ 3 :> <<>>), dw |-> <<-1000, -1, 880>>],
   \* text-state parameters that are usually left at their defaults: 0.5 Tc 2 Tw (fs 10: 50 / 200 thousandths), 200 Tz, 3 Ts
   [id |-> "H-ts", mode |-> "H", tc |-> 50, tw |-> 200, sc |-> 2, tab |-> (1 :> <<250>> @@ 2 :> <<600>> @@ 3 :> <<>>), dw |-> <<500>>],
   [id |-> "V-ts", mode |-> "V", tc |-> 50, tw |-> 200, sc |-> 1, tab |-> (1 :> <<-500, 300, 700>> @@ 2 :> <<>> @@ 3 :> <<-750, 500, 880>>), dw |-> <<-1000, -1, 880>>],
